@@ -404,6 +404,11 @@ func c03FailClosed(c *Ctx) {
 					c.R.OK(key, c.ipos(g.call), "result returned to the caller, whose gate on "+fn.Name()+" tests it")
 					continue
 				}
+				if fn == create && propagated {
+					// `return opCtx, e.bindOperation(…)`: the list is CreateOperationContext's own result; every caller's test of it is C03/dispatch-gated
+					c.R.OK(key, c.ipos(g.call), "result returned as CreateOperationContext's own error list (tested by every caller: dispatch-gated)")
+					continue
+				}
 				c.R.Bad(key, c.ipos(g.call), "the gate's result is never tested: its failure cannot stop the request")
 				continue
 			}
